@@ -13,6 +13,7 @@ import SpoxModel.Props.C19
 #print axioms C19.scan_axes_counterexample
 #print axioms C19.scan_pinned_counterexample
 #print axioms C19.sequence_map_pinned_counterexample
+#print axioms C19.args_fresh
 #print axioms C19.called_once
 #print axioms C19.called_exactly_once
 #print axioms C19.called_at_most_once
